@@ -413,6 +413,38 @@ func ruleTAB1(w *World) []Ob {
 				l.ok(p.FuncID(gen), "row and error handed to handleErr", p.InstrPos(he), "handleErr(err of Parse(row), row)", true, "map")
 			}
 		}
+		// the text of an item is never empty: whatever is stored as Markdown.text was tested non-empty — the very value
+		// that is stored, after all trimming, not what it was trimmed from
+		{
+			nText := 0
+			for _, f := range p.ModFuncs {
+				if p.PkgPath(f) != modulePath+"/markdown" {
+					continue
+				}
+				f := f
+				num := numbered{}
+				allInstrs(f, func(in ssa.Instruction) {
+					st, isSt := in.(*ssa.Store)
+					if !isSt {
+						return
+					}
+					fa, isFA := st.Addr.(*ssa.FieldAddr)
+					if !isFA || fieldName(fa.X.Type(), fa.Field) != "text" || !strings.HasSuffix(relTypeString(fa.X.Type()), "Markdown") {
+						return
+					}
+					nText++
+					construct := num.name("item text tested non-empty")
+					if textNonEmptyAt(p, st.Val, st.Block(), 0) {
+						l.ok(p.FuncID(f), construct, p.InstrPos(st), "the stored value itself is on the non-empty side of a length / \"\" test", true, "nonempty")
+					} else {
+						l.bad(p.FuncID(f), construct, p.InstrPos(st), "the value stored as the item's text is not the one that was tested for emptiness (the test looks at the text before trimming, or is missing): a row with markup but no text (`- `, `# `) becomes a node with an empty name instead of the empty-text error", "nonempty")
+					}
+				})
+			}
+			if nText == 0 {
+				l.undecided("markdown", "item text tested non-empty", "-", "no store into Markdown.text found", "nonempty")
+			}
+		}
 		// Parse: ErrBlankLine only under isBlank
 		if parse := p.Func("(*markdown.Parser).Parse"); parse != nil {
 			// Parse may be a thin wrapper (locking, bookkeeping) that hands back the results of the function doing the work
@@ -1120,6 +1152,63 @@ func ruleTAB4(w *World) []Ob {
 		l.bad(p.FuncID(fn), "verdict = (strict ∧ extra≠∅) ∨ missing≠∅", p.Pos(fn.Pos()), strings.Join(diffs, "; "), "verdict")
 	} else {
 		l.ok(p.FuncID(fn), "verdict = (strict ∧ extra≠∅) ∨ missing≠∅", p.Pos(fn.Pos()), "all 8 rows of the truth table agree", true, "verdict")
+	}
+	// the required paths of a root are collected in a map of that root's own: a map made once and filled for several
+	// roots (from a loop over the roots) mixes their paths, and whatever then separates them again is a decision on
+	// path strings that the per-root map never needed
+	if fill := p.Func("(*gtree.defaultVerifierSimple).fillDirsMarkdown"); fill != nil {
+		nFill := 0
+		for _, ci := range p.Callers(fill) {
+			c, isCall := ci.(*ssa.Call)
+			if !isCall || c.Parent() == fill {
+				continue
+			}
+			var m ssa.Value
+			for _, a := range c.Common().Args {
+				if _, isMap := a.Type().Underlying().(*types.Map); isMap {
+					m = a
+				}
+			}
+			if m == nil {
+				continue
+			}
+			nFill++
+			construct := "required paths collected per root"
+			mk, isMk := resolve(m).(*ssa.MakeMap)
+			switch {
+			case !isMk:
+				// handed in: every call site of this function must make the map for this one call
+				okAll := true
+				if prm, isP := resolve(m).(*ssa.Parameter); isP && prm.Parent() != nil {
+					idx := paramIndex(prm.Parent(), prm)
+					for _, ci2 := range p.Callers(prm.Parent()) {
+						args := callArgs(ci2.Common())
+						if idx < 0 || idx >= len(args) {
+							okAll = false
+							continue
+						}
+						mk2, isMk2 := resolve(args[idx]).(*ssa.MakeMap)
+						if !isMk2 || (inLoop(ci2.(ssa.Instruction)) && !inLoop(mk2)) {
+							okAll = false
+						}
+					}
+				} else {
+					okAll = false
+				}
+				if okAll {
+					l.ok(p.FuncID(c.Parent()), construct, p.InstrPos(c), "the map is handed in, and every call site makes it for that one call", true, "per-root")
+				} else {
+					l.bad(p.FuncID(c.Parent()), construct, p.InstrPos(c), "the map that collects the required paths is not made for this one root (it is handed in from a place that makes it once for several roots, or its origin is not a make): the paths of different roots are mixed", "per-root")
+				}
+			case inLoop(c) && !inLoop(mk):
+				l.bad(p.FuncID(c.Parent()), construct, p.InstrPos(c), "one map, made outside the loop over the roots, is filled with the required paths of every root: the paths of different roots are mixed and have to be told apart again by their strings", "per-root")
+			default:
+				l.ok(p.FuncID(c.Parent()), construct, p.InstrPos(c), "the map is made in the function that handles this one root", true, "per-root")
+			}
+		}
+		if nFill == 0 {
+			l.undecided("(*gtree.defaultVerifierSimple).fillDirsMarkdown", "required paths collected per root", "-", "no non-recursive call found", "per-root")
+		}
 	}
 	// the error carries the lists it was given — as they are, or reordered / copied (never filtered) by a helper
 	var permOf func(v, src ssa.Value, d int) bool
@@ -3245,4 +3334,54 @@ func exitCodeNonZero(p *Prog, v ssa.Value, d int) bool {
 		}
 	}
 	return true
+}
+
+
+// textNonEmptyAt: at block b the string v is known to be non-empty — a dominating guard tests len(v) / v != "" on the same
+// value; for a parameter, every call site passes a value for which that holds there.
+func textNonEmptyAt(p *Prog, v ssa.Value, b *ssa.BasicBlock, d int) bool {
+	for _, g := range guardsOf(b) {
+		c, pol := flattenCond(g.Cond, g.Pol)
+		bo, isB := c.(*ssa.BinOp)
+		if !isB {
+			continue
+		}
+		// len(x) ⋈ k
+		if _, neg, isLen := lenAtom(c); isLen {
+			var lc *ssa.Call
+			if x, ok := bo.X.(*ssa.Call); ok && isBuiltinCall(x, "len") {
+				lc = x
+			} else if y, ok := bo.Y.(*ssa.Call); ok && isBuiltinCall(y, "len") {
+				lc = y
+			}
+			if lc != nil && pol != neg && (lc.Common().Args[0] == v || sameVar(lc.Common().Args[0], v)) {
+				return true
+			}
+		}
+		// x != "" / x == ""
+		if bo.Op == token.NEQ || bo.Op == token.EQL {
+			for _, pair := range [][2]ssa.Value{{bo.X, bo.Y}, {bo.Y, bo.X}} {
+				if sv, isS := constString(pair[1]); isS && sv == "" && (pair[0] == v || sameVar(pair[0], v)) {
+					if (bo.Op == token.NEQ) == pol {
+						return true
+					}
+				}
+			}
+		}
+	}
+	if prm, isP := v.(*ssa.Parameter); isP && d < 2 && prm.Parent() != nil {
+		idx := paramIndex(prm.Parent(), prm)
+		callers := p.Callers(prm.Parent())
+		if idx < 0 || len(callers) == 0 {
+			return false
+		}
+		for _, ci := range callers {
+			args := callArgs(ci.Common())
+			if idx >= len(args) || !textNonEmptyAt(p, args[idx], ci.(ssa.Instruction).Block(), d+1) {
+				return false
+			}
+		}
+		return true
+	}
+	return false
 }
